@@ -337,8 +337,16 @@ _NEW_METHODS = {"copy", "astype", "repeat", "take", "flatten", "compress", "roun
 _WINDOW_METHODS = {"view", "reshape", "ravel", "squeeze", "transpose", "swapaxes"}
 
 
-def materialize_origin(fn):
-    """`fresh` when every `return` of the method hands out an array (or list) built anew -- numpy.full /
+STORED_ATTRS = ("values", "indices", "encoding", "lengths")
+
+
+def materialize_origin(fn, stored_attrs=False):
+    """With `stored_attrs` (an `__init__`): the same reading for the arrays the constructor STORES -- `self.<attr>`
+    as the method finds it is the caller's input; `alias` when, at the end of the body or at any `return`, one of
+    `self.values / indices / encoding / lengths` that the method assigns is the input or a window onto it (for one
+    shape of input is enough), `fresh` when every one it assigns is recognised as built anew.
+
+    `fresh` when every `return` of the method hands out an array (or list) built anew -- numpy.full /
     numpy.array / repeat / take / indexing by an index array / arithmetic; `alias` when it hands out a
     window onto an array stored on the column -- numpy.broadcast_to / slicing / view / reshape / asarray of
     `self.<attr>`, or the attribute itself.  Anything else is not recognised (KeyError: the item degrades)."""
@@ -346,6 +354,7 @@ def materialize_origin(fn):
         return not any(k.arg == "copy" for k in call.keywords) and not any(k.arg == "out" for k in call.keywords)
 
     env = {}  # name -> origin of what it is bound to where the walk stands (absent / None: not recognised)
+    in_empty = [0]
 
     def org(e, depth=0):
         if depth > 12 or e is None:
@@ -363,6 +372,10 @@ def materialize_origin(fn):
                     if env[key] is None:
                         raise KeyError("materialize: `%s` is bound to something that is not recognised" % key)
                     return env[key]
+                if stored_attrs and e.attr not in STORED_ATTRS:
+                    # (in a constructor only the array attributes are the caller's sequence; `self.value`,
+                    # `self.default_value`, `self.length` are scalars)
+                    raise KeyError("__init__: attribute `%s`" % ast.unparse(e))
                 return "stored"
             if e.attr in ("T", "real", "imag", "flat") and org(e.value, depth + 1) == "stored":
                 return "stored"
@@ -382,8 +395,16 @@ def materialize_origin(fn):
                 return "fresh"
             raise KeyError("materialize: `%s`" % ast.unparse(e))
         if isinstance(e, ast.IfExp):
-            a, b = org(e.body, depth + 1), org(e.orelse, depth + 1)
-            if a == b:
+            both = []
+            for x in (e.body, e.orelse):
+                try:
+                    both.append(org(x, depth + 1))
+                except KeyError:
+                    both.append(None)
+            if "stored" in both:
+                return "stored"  # (a window for one shape of input is a window)
+            a, b = both
+            if a is not None and a == b:
                 return a
             raise KeyError("materialize: a conditional expression of two origins")
         if isinstance(e, ast.Call):
@@ -439,6 +460,10 @@ def materialize_origin(fn):
         out = {}
         for k in set(e1) | set(e2):
             a, b = e1.get(k), e2.get(k)
+            if stored_attrs and k.startswith("self."):
+                # (an attribute one branch leaves alone is what the method found: the caller's input)
+                a = "stored" if k not in e1 else a
+                b = "stored" if k not in e2 else b
             out[k] = a if a == b else "stored" if "stored" in (a, b) else None
         return out
 
@@ -453,14 +478,30 @@ def materialize_origin(fn):
                     for x in ([t] if isinstance(t, ast.Name) else t.elts if isinstance(t, (ast.Tuple, ast.List)) else []):
                         if isinstance(x, ast.Name):
                             env[x.id] = v if isinstance(t, ast.Name) else None
+                        elif isinstance(x, ast.Attribute) and isinstance(x.value, ast.Name) and x.value.id == "self":
+                            # (`(self.indices,) = numpy.where(...)`, `self.values, self.encoding = numpy.unique(...)`: the
+                            # parts of a tuple of arrays built anew are built anew; of anything else: not recognised)
+                            env["self." + x.attr] = "fresh" if v == "fresh" else None
             elif isinstance(st, ast.AnnAssign) and isinstance(st.target, ast.Name) and st.value is not None:
                 env[st.target.id] = try_org(st.value)[0]
             elif isinstance(st, ast.If):
                 before = dict(env)
+                # (a branch taken for the EMPTY input only: an array without elements cannot be changed through any
+                # window, whatever it shares with the input is not observable)
+                empty = stored_attrs and re.sub(r"\s", "", ast.unparse(st.test)) in (
+                    "len(self.values)==0", "notlen(self.values)", "len(self.values)<1", "0==len(self.values)")
+                in_empty[0] += 1 if empty else 0
                 walk(st.body)
+                in_empty[0] -= 1 if empty else 0
                 after_body, env = env, dict(before)
                 walk(st.orelse)
-                env = merge(after_body, env)
+                leaves = lambda b: bool(b) and isinstance(b[-1], (ast.Return, ast.Raise))
+                if stored_attrs and leaves(st.body) and not leaves(st.orelse):
+                    pass  # (the branch left the method: what follows sees the other branch only)
+                elif stored_attrs and leaves(st.orelse) and not leaves(st.body):
+                    env = after_body
+                else:
+                    env = merge(after_body, env)
             elif isinstance(st, (ast.For, ast.While)):
                 if isinstance(st, ast.For):
                     for x in ast.walk(st.target):
@@ -479,10 +520,27 @@ def materialize_origin(fn):
                 walk(st.orelse)
                 walk(st.finalbody)
             elif isinstance(st, ast.Return):
-                rets.append(try_org(st.value))
+                if stored_attrs:
+                    snapshot()
+                else:
+                    rets.append(try_org(st.value))
             # (`x *= 2`, `x[i] = v`, `x.extend(...)`: in place, the object stays the one it was; other statements: nothing)
 
+    def snapshot():
+        if in_empty[0]:
+            return
+        if "self.values" not in env:
+            rets.append(("stored", None))  # (`self.values` left as the shared constructor bound it: the caller's input)
+        for a in STORED_ATTRS:
+            if "self." + a in env:
+                k = env["self." + a]
+                rets.append((k, None if k is not None else KeyError("__init__: `self.%s` is bound to something that is not recognised" % a)))
+
     walk(fn.body)
+    if stored_attrs:
+        snapshot()
+        if not rets:
+            return "fresh"  # (the constructor stores no array of its own making: nothing to alias)
     if not rets:
         raise KeyError("materialize: no return")
     if any(k == "stored" for k, _ in rets):
@@ -493,6 +551,7 @@ def materialize_origin(fn):
     return "fresh"
 
 
+STORED_ORIGINS = (("rle", "RLEColumn"), ("dict", "DictionaryColumn"), ("sparse", "SparseColumn"), ("const", "ConstantColumn"))
 ORIGINS = (("rle", "RLEColumn"), ("dict", "DictionaryColumn"), ("sparse", "SparseColumn"), ("const", "ConstantColumn"),
            ("function", "FunctionColumn"))
 
@@ -748,6 +807,12 @@ def generate(o):
             text += "(numpy.full / numpy.array / repeat / take / indexing by an index array), `aliasStored` = a window onto an\n"
             text += "array stored on the column (numpy.broadcast_to / slicing / view / the attribute itself) -/\n"
             text += "def %sMaterializeOrigin : Origin := %s\n\n" % (short, ".aliasStored" if og[cls] == "alias" else ".fresh")
+        for short, cls in STORED_ORIGINS:
+            text += "/-- whose arrays `%s.__init__` stores (`self.values` / `indices` / `encoding` / `lengths`), read off the\n" % cls
+            text += "assignments of its body: `own` = every one built anew (numpy.array / numpy.unique / numpy.where / indexing by an\n"
+            text += "index array / a list built in the method), `aliasInput` = one of them is the caller's input or a window onto it\n"
+            text += "(numpy.asarray of it / a slice / the attribute as it was found), were it for one shape of input only -/\n"
+            text += "def %sStoredOrigin : StoredOrigin := %s\n\n" % (short, ".aliasInput" if sg[cls] == "alias" else ".own")
         text += "end Gen.Encodings\n"
         return text
 
@@ -781,6 +846,8 @@ def generate(o):
     fa = o.item("schema.function_configuration_arity", lambda: function_configuration_arity(src), 0)
     og = {cls: o.item("schema.materialize_origin." + cls, (lambda cls=cls: materialize_origin(src.func("materialize", cls))), "fresh")
           for _, cls in ORIGINS}
+    sg = {cls: o.item("schema.stored_origin." + cls, (lambda cls=cls: materialize_origin(src.func("__init__", cls), stored_attrs=True)), "fresh")
+          for _, cls in STORED_ORIGINS}
     dd = o.item("schema.lean.sparseResultDType", lambda: dtype_decision(src.func("materialize", "SparseColumn")),
                 PINNED["sparseResultDType"])
     text = assemble(translated, dd)
